@@ -17,7 +17,7 @@ TInit == LInit /\ vtid = 1 /\ vpos = 1 /\ vkeys = <<>>
 
 Act(e) ==
   \/ e.op = "load" /\ Load(e.h, e.L)
-  \/ e.op = "update" /\ Update(e.h, e.h2)
+  \/ e.op = "update" /\ Update(e.h, e.h2, e.ow)
   \/ e.op = "decompose" /\ Decompose(e.h, e.m)
   \/ e.op = "estimate" /\ Estimate(e.h, e.d)
   \/ e.op = "eval" /\ Eval(e.e, e.p, e.t, e.sel)
